@@ -16,6 +16,11 @@ Decided (design section 5, C08):
      C2-close-closes-descriptor      ... every success path passes a call that reaches ::close/fclose (stdout / already-closed excepted)
      C3-close-layer-first            ... the compression layer close (gzclose_w, BZ2_bzWriteClose64) dominates fsync and descriptor close
      C4-file-size-after-layer-close  ... the field file_size() returns is assigned only after the layer close, never on its failure path
+     C5-close-finishes-stream        ... every path that finds the stream open passes the finishing call (gzclose_w, BZ2_bzWriteClose64) -- the
+                                      stdout special case may only skip fsync / descriptor close; a class whose constructor opens a gz / bz2
+                                      stream has the matching finishing call in close() (sibling agreement)
+ 1c  O1-open-flags-match-overwrite-mode must-bits of the flags word at ::open: overwrite::allow => O_WRONLY|O_CREAT|O_TRUNC, overwrite::no =>
+                                      O_WRONLY|O_CREAT|O_EXCL (any spelling: initialiser, |=, ?:, helper function)
  3   T1-write-thread-try-covers-work pop / write / close / set_value of WriteThread::operator() lie in one try with catch (...)
      T2-write-thread-handler-forwards the handler sets the notification flag, set_exception(current_exception()), shuts the queue down
      T3-write-thread-loop            every popped chunk that is not end-of-data is written; the loop is left only at end-of-data; then
@@ -53,7 +58,7 @@ from .. import errdisc as E
 from ..c08_util import (WRITER, WRITE_THREAD, COMPRESSOR, OUTPUT_FORMAT, is_exit, write_path_functions, in_io_layer,
                         scn, vars_in, catch_all_handler, nodes_in_handler, must_pass, must_pass_after, calls_reaching, cond_blocks,
                         is_pointer_truth, reads_only_object_state, compares_with_const, guards, resolved, callees_deep, vars_in_deep,
-                        helper_bodies, role_ids, role_ids_may, work_functions, atom_guards, false_edge_of)
+                        helper_bodies, role_ids, role_ids_may, work_functions, atom_guards, false_edge_of, must_bits_at)
 from ..flow import path_search, describe_path
 
 # genuine findings on the pristine tree: (rule, key, explanation)
@@ -71,7 +76,7 @@ EXPLANATION = (
     'NOT decided: completeness of the bytes on disk for every fault offset (fault injection), partial-write semantics inside zlib/libbz2, '
     'thread interleavings, option parsing (strtol, C13).')
 ASSUMPTIONS = ['failure conventions of POSIX / stdio / zlib / libbz2 / lz4 as tabulated in osmlint/errdisc.py (DESIGN appendix B)',
-               'EINTR == 4 (Linux)', 'drivers/io_write.cpp instantiates every output format and compressor the library registers',
+               'EINTR == 4, O_WRONLY/O_CREAT/O_EXCL/O_TRUNC == 01/0100/0200/01000 (Linux)', 'drivers/io_write.cpp instantiates every output format and compressor the library registers',
                'exceptions leaving a function are handled by its callers as decided by rules T1/T2/G2 (no implicit EH edges in the CFG)']
 
 
@@ -87,7 +92,52 @@ def errdisc_rules(fb, R, fns):
             short_write(fb, R, fn, call, o)
     if nwrite == 0:
         R.broken('no ::write call found on the write path')
+    nopen = open_flag_rules(fb, R, [(fn, call) for (fn, call, _c, _o) in done if call['q'] in ('open', 'open64')])
+    if nopen == 0:
+        R.broken('no ::open call found on the write path')
     return done
+
+
+# open(2) flag words (Linux, asm-generic/fcntl.h): the fact base only has the folded values of the O_* macros
+O_WRONLY, O_CREAT, O_EXCL, O_TRUNC = 0o1, 0o100, 0o200, 0o1000
+OVERWRITE = 'osmium::io::overwrite'
+
+
+def open_flag_rules(fb, R, open_sites):
+    """O1: at every ::open on the write path, the bits definitely set in the flags argument (must-dataflow over the flags
+    word along every path, spelling-independent: initialiser, |=, ?:, helper function) agree with the overwrite mode:
+    overwrite::allow => O_WRONLY|O_CREAT|O_TRUNC (an existing longer file must not keep its tail),
+    overwrite::no    => O_WRONLY|O_CREAT|O_EXCL  (an existing file must not be touched)."""
+    rule = 'O1-open-flags-match-overwrite-mode'
+    en = fb.enum(OVERWRITE)
+    vals = {e['name']: int(e['value']) for e in en['enumerators']} if en else {}
+    if 'allow' not in vals or 'no' not in vals:
+        R.broken('enum %s {no, allow} not found' % OVERWRITE)
+        return 0
+    n = 0
+    for (fn, call) in open_sites:
+        args = call.get('args', []) or []
+        if len(args) < 2:
+            R.broken('%s: ::open with %d arguments' % (fn.q, len(args)))
+            continue
+        modes = [p for p in fn.params if p['tC'].replace('const ', '').strip() == OVERWRITE]
+        if len(modes) != 1:
+            R.broken('%s calls ::open for writing but has no single %s parameter: cannot relate the flags to the overwrite mode' % (fn.q, OVERWRITE))
+            continue
+        n += 1
+        for mode, need, why in (('allow', O_WRONLY | O_CREAT | O_TRUNC, 'overwriting a longer existing file would leave its old tail on disk'),
+                                ('no', O_WRONLY | O_CREAT | O_EXCL, 'an existing file would be opened and clobbered although overwriting is not allowed')):
+            got = must_bits_at(fb, fn, {('var', modes[0]['d']): E.fin(vals[mode])}, {call['id']: args[1]})
+            if got is None or not got:
+                R.broken('%s: ::open is not reachable / not analysable with %s == %s' % (fn.q, modes[0]['name'], mode))
+                continue
+            missing = 0
+            for (_e, bits) in got:
+                missing |= need & ~bits
+            R.check(missing == 0, rule, '%s#%s' % (fn.q, mode), fn.loc(call['id']),
+                    'with %s == overwrite::%s the flags passed to ::open are not guaranteed to contain %s (missing bits 0%o): %s'
+                    % (modes[0]['name'], mode, 'O_WRONLY|O_CREAT|O_TRUNC' if mode == 'allow' else 'O_WRONLY|O_CREAT|O_EXCL', missing, why))
+    return n
 
 
 def _assigned_from(fn, call):
@@ -380,16 +430,47 @@ def _close_one(fb, R, rec, fn, key=None, depth=0):
             v = E.eval3(fn, c, closed_env)
             if v is not None and idx == (0 if v else 1):
                 return False   # object already closed (idempotence guard)
-        if compares_with_const(fn, c, ('==',), 1) and idx == 0 or compares_with_const(fn, c, ('!=',), 1) and idx == 1:
+        def cmp1(op):
+            def atom(x):
+                n = resolved(fn, x)
+                return n is not None and n.get('k') == 'binop' and n.get('op') == op and 1 in (E.const_of(fn, n['rhs']), E.const_of(fn, n['lhs']))
+            return atom
+        fe = false_edge_of(fn, blk, cmp1('=='))
+        if fe is not None and idx == 1 - fe:
             return False       # stdout is neither synced nor closed
+        fe = false_edge_of(fn, blk, cmp1('!='))
+        if fe is not None and idx == fe:
+            return False
         return True
     w = must_pass(fn, fn.entry, dclose_ids, edge_ok2) if dcloses else [('exit', fn.exit)]
     R.check(w is None, 'C2-close-closes-descriptor', key, fn.site,
             'close(): a success path returns without a call that reaches ::close / fclose (close errors such as a deferred ENOSPC/EIO are '
             'never observed): %s' % describe_path(fn, w))
 
+    # C5: a stream that was opened in the constructor is finished in close(), on every path that finds it open
+    FAMILIES = {'gz': (('gzdopen', 'gzopen', 'gzopen64'), ('gzclose', 'gzclose_w')),
+                'bz2': (('BZ2_bzWriteOpen',), ('BZ2_bzWriteClose', 'BZ2_bzWriteClose64'))}
+    opened = {n['q'] for c in fb.fns(rec.q + '::(ctor)') for g in work_functions(fb, c, 2) for n in g.all_nodes() if E.is_extern_c(n)}
+    finished = {n['q'] for g in work_functions(fb, fn, 2) for n in g.all_nodes() if E.is_extern_c(n)}
+    for fam, (openers, finishers) in sorted(FAMILIES.items()):
+        if opened & set(openers):
+            R.check(bool(finished & set(finishers)), 'C5-close-finishes-stream', '%s#%s-finished' % (key, fam), fn.site,
+                    'the constructor opens a %s stream (%s) but close() never calls %s: buffered data and the trailer are never written'
+                    % (fam, ', '.join(sorted(opened & set(openers))), ' / '.join(finishers)))
     if not layer:
         return
+
+    def edge_ok3(b, idx, s):     # only "already closed" excuses a path; stdout does not (it may only skip fsync / ::close)
+        c = E.effective_cond(fn, fn.blocks[b])
+        if reads_only_object_state(fn, c):
+            v = E.eval3(fn, c, closed_env)
+            if v is not None and idx == (0 if v else 1):
+                return False
+        return True
+    w = must_pass(fn, fn.entry, [l['id'] for l in layer], edge_ok3)
+    R.check(w is None, 'C5-close-finishes-stream', key, fn.site,
+            'close(): a path on which the stream is still open returns without the finishing call (%s): compressed data still buffered in '
+            'the library and the stream trailer are never written (e.g. output to stdout): %s' % (', '.join(sorted({l['q'] for l in layer})), describe_path(fn, w)))
     # C3
     for l in layer:
         later = [n for n in fsyncs + dcloses if not fn.elem_dominates(l['id'], n['id'])]
@@ -1076,6 +1157,8 @@ def run(ctx):
     R.expect('C2-close-closes-descriptor', 3)
     R.expect('C3-close-layer-first', 2)
     R.expect('C4-file-size-after-layer-close', 2)
+    R.expect('C5-close-finishes-stream', 4)
+    R.expect('O1-open-flags-match-overwrite-mode', 2)
     R.expect('T1-write-thread-try-covers-work', 5)
     R.expect('T2-write-thread-handler-forwards', 3)
     R.expect('T3-write-thread-loop', 2)
@@ -1101,7 +1184,19 @@ def _selftest_errdisc(fb, R):
         raise AnalysisBroken('ERRDISC self-test: unexpected verdicts on selftest/positive/c08_errdisc.cpp: %s %s' % (wrong, R.broken_msgs))
 
 
+def _selftest_open(fb, R):
+    from ..engine import AnalysisBroken
+    sites = [(f, n) for f in fb.functions if f.q.startswith('c08pos::') for n in f.all_nodes() if E.is_extern_c(n) and n['q'] in ('open', 'open64')]
+    open_flag_rules(fb, R, sites)
+    wrong = [i.key for i in R.instances.values() if (not i.ok) != ('::bad_' in i.key) and not ('::bad_' in i.key and i.ok)]
+    fired = {i.key.split('#')[0] for i in R.instances.values() if not i.ok}
+    want = {'c08pos::bad_no_trunc', 'c08pos::bad_swapped', 'c08pos::bad_trunc_lost'}
+    if wrong or R.broken_msgs or fired != want or len(R.instances) < 14:
+        raise AnalysisBroken('O1 self-test: unexpected verdicts on selftest/positive/c08_open.cpp: wrong=%s fired=%s %s' % (wrong, sorted(fired), R.broken_msgs))
+
+
 SELFTESTS = [
+    ('O1-open-flags-match-overwrite-mode', 'c08_open.cpp', _selftest_open),
     ('E1-oserror-reaches-throw', 'c08_errdisc.cpp', _selftest_errdisc),
     ('E1-nothrow-explicit-discard', 'c08_errdisc.cpp', _selftest_errdisc),
 ]
